@@ -63,6 +63,16 @@ def host(desc):
         "hydrogens": desc.get("hydrogens", False),
         "omit": {int(k): set(v) for k, v in desc.get("omit", {}).items()},
     })
+    if desc.get("asym"):
+        # carboxyl group with one C-O bond 0.08 A longer than the other
+        ti = _target_idx(desc["pos"])
+        base = T.base_of(desc["x"])
+        far, near = {"ASP": (("OD2", "OD1"), "CG"),
+                     "GLU": (("OE2", "OE1"), "CD")}[base]
+        o = _find(atoms, ti, far[0] if desc["asym"] == 2 else far[1])
+        c = _find(atoms, ti, near)
+        u = o["xyz"] - c["xyz"]
+        o["xyz"] = o["xyz"] + 0.08 * u / np.linalg.norm(u)
     return atoms, info
 
 
@@ -495,7 +505,7 @@ def gap_cases(ff, opts=("default",)):
             for o in opts for x in T.AMINO]
 
 
-def rebuilt_clash_cases(ff, names=None):
+def rebuilt_clash_cases(ff, names=None, opts=("default",)):
     """2 deviations: a truncated side chain plus a water sitting on the
     position where the farthest omitted atom will be rebuilt (the rebuilt
     atom clashes, so the residue is debumped before AND after hydrogens are
@@ -504,8 +514,10 @@ def rebuilt_clash_cases(ff, names=None):
     for x in (names or T.AMINO):
         for pos in corpus.POSITIONS:
             for sfx in suffixes(x, pos):
-                out.append({"x": x, "pos": pos, "ff": ff, "opt": "default",
-                            "env": [["omit", sfx], ["clashheavy", sfx[-1]]]})
+                for opt in opts:
+                    out.append({"x": x, "pos": pos, "ff": ff, "opt": opt,
+                                "env": [["omit", sfx],
+                                        ["clashheavy", sfx[-1]]]})
     return out
 
 
@@ -579,4 +591,23 @@ def omit_backbone_cases(ff, names=None):
             for a in ("O", "C", "N", "CA"):
                 out.append({"x": x, "pos": pos, "ff": ff, "opt": "default",
                             "env": [["omit", [a]]]})
+    return out
+
+
+def asym_acid_cases(ffs=("AMBER", "PARSE")):
+    """Acids whose two C-O bonds differ by 0.08 A (either one longer): the
+    optimiser handles such groups in a branch of its own."""
+    out = []
+    for ff in ffs:
+        for x in ("ASP", "ASH", "GLU", "GLH"):
+            for pos in corpus.POSITIONS:
+                for which in (1, 2):
+                    for opt in ("default", "noopt"):
+                        out.append({"x": x, "pos": pos, "ff": ff, "opt": opt,
+                                    "asym": which, "env": []})
+                    out.append({"x": x, "pos": pos, "ff": ff, "opt": "default",
+                                "asym": which,
+                                "env": [["water",
+                                         "OD2" if x[0] == "A" else "OE2",
+                                         0, 2.8]]})
     return out
